@@ -14,6 +14,7 @@ mod master;
 mod net;
 mod quake;
 mod reader;
+mod real;
 mod settings;
 mod valve;
 mod views;
@@ -35,6 +36,7 @@ fn entries() -> Vec<(&'static str, EntryFn)> {
     v.extend(games::entries());
     v.extend(idcheck::entries());
     v.extend(quake::entries());
+    v.extend(real::entries());
     v
 }
 
